@@ -14,9 +14,13 @@ names):
 * `column_edit_exact` — one column added, dropped or modified in one table ⇒ exactly one
   `ModifyTable` holding exactly that column change (with exactly the differing kind bits);
 * `fk_edit_exact`, `table_attr_exact` — likewise for a foreign key and the table attributes;
-* the generic lemmas `keyedDiff_add/_drop/_modify` state exactness for every keyed collection.
+* the generic lemmas `keyedDiff_add/_drop/_modify` state exactness for every keyed collection;
+* `diff_characterisation`, `column_diff_characterisation` — for ARBITRARY pairs of schemas (any set of
+  simultaneous edits): the diff contains exactly a DropTable per disappeared table, an AddTable per
+  new table, and for every table present in both exactly its non-empty table diff (likewise for the
+  columns of a table); `diff_count` — every table contributes at most one change.
 
-PARTIAL: exactness for arbitrary *sets* of simultaneous edits and for index / check edits is decided
+PARTIAL: exactness for index / check edits inside a table is decided
 by the correspondence run (model = implementation on random multi-edit pairs) and the catalogue
 monitor, not by a theorem; dialect-specific attribute comparison (ColumnChange, typeChanged,
 defaultChanged, Normalize) is abstracted to token equality and validated by the catalogue only.
@@ -202,6 +206,30 @@ theorem table_attr_exact (l₁ l₂ : List Table) (t : Table) (a' : Nat) (hw : W
       fkDiff_perm _ _ (List.Perm.refl _) hwt.fks, columnDiff_perm _ _ (List.Perm.refl _) hwt.cols]
   have := modify_table_exact l₁ l₂ t { t with attrs := a' } hw rfl (by rw [hd]; simp)
   rw [this, hd]
+
+/-- **diff_characterisation** (any two schemas). -/
+theorem diff_characterisation (s s' : List Table) (hs' : (s'.map Table.name).Nodup) (c : Change) :
+    c ∈ schemaDiff s s' ↔
+      (∃ t ∈ s, t.name ∉ s'.map Table.name ∧ c = .dropTable t.name) ∨
+      (∃ t ∈ s, ∃ t' ∈ s', t'.name = t.name ∧ tableDiff t t' ≠ [] ∧ c = .modifyTable t'.name (tableDiff t t')) ∨
+      (∃ t' ∈ s', t'.name ∉ s.map Table.name ∧ c = .addTable t'.name) :=
+  mem_schemaDiff s s' hs' c
+
+/-- **column_diff_characterisation** (any two column lists). -/
+theorem column_diff_characterisation (cols cols' : List Col) (hn : (cols'.map Col.name).Nodup) (c : TChange) :
+    c ∈ columnDiff cols cols' ↔
+      (∃ a ∈ cols, a.name ∉ cols'.map Col.name ∧ c = .dropColumn a.name) ∨
+      (∃ a ∈ cols, ∃ b ∈ cols', b.name = a.name ∧ kinds a.attrs b.attrs ≠ [] ∧ c = .modifyColumn a.name (kinds a.attrs b.attrs)) ∨
+      (∃ b ∈ cols', b.name ∉ cols.map Col.name ∧ c = .addColumn b.name) :=
+  mem_columnDiff cols cols' hn c
+
+/-- **diff_count**: the number of changes is the number of tables that produce one (no table is
+reported twice). -/
+theorem diff_count (s s' : List Table) :
+    (schemaDiff s s').length ≤ s.length + s'.length := by
+  unfold schemaDiff
+  rw [keyedDiff_length]
+  exact Nat.add_le_add (List.length_filter_le _ _) (List.length_filter_le _ _)
 
 /-! ### non-vacuity -/
 
